@@ -65,9 +65,12 @@ type lexer struct {
 	token chan interface{}
 	done  chan struct{}
 
-	// faulted is set when the parser has reported an error. It is
-	// accessed only by the goroutine of the parser.
+	// faulted is set when the parser has reported an error, and lazy
+	// holds, for each operand of &&, || and ?: being parsed, whether it
+	// is evaluated. They are accessed only by the goroutine of the
+	// parser.
 	faulted bool
+	lazy    []bool
 
 	mu     sync.Mutex
 	err    error
@@ -381,6 +384,22 @@ func (l *lexer) read() (rune, error) {
 
 func (l *lexer) unread() {
 	l.r.UnreadRune()
+}
+
+// enter begins an operand which is evaluated only if live is true, and
+// the operand which encloses it is evaluated.
+func (l *lexer) enter(live bool) {
+	l.lazy = append(l.lazy, live && !l.dead())
+}
+
+// leave ends the operand begun by enter.
+func (l *lexer) leave() {
+	l.lazy = l.lazy[:len(l.lazy)-1]
+}
+
+// dead reports whether the operand being parsed is not evaluated.
+func (l *lexer) dead() bool {
+	return len(l.lazy) != 0 && !l.lazy[len(l.lazy)-1]
 }
 
 func (l *lexer) Error(s string) {
